@@ -131,6 +131,8 @@ HTTP_OPS: Dict[str, dict] = {
     "s_v_cr": _start(200, [(b"x-a", b"1\rx-evil: 2")]),
     "s_v_nul": _start(200, [(b"x-a", b"a\x00b")]),
     "s_n_space": _start(200, [(b"x a", b"1")]),
+    "s_sp_pseudo": _start(200, [(b" :status", b"500")]),
+    "hint_crlf": {"type": "http.response.early_hint", "links": [b"</s.css>; rel=preload\r\nx-evil: 1"]},
     "s_n_crlf": _start(200, [(b"x-a: 1\r\nx-evil", b"2")]),
 }
 
